@@ -383,6 +383,17 @@ func worst(div []string) string {
 	return strings.Join(div, "+")
 }
 
+// excuse ranks a set of deviating operators by its least excusable member (position of worst(div) in the list above).
+func excuse(div []string) int {
+	w := worst(div)
+	for i, k := range []string{"join", "chain", "unjson", "unjson~closehook", "join~hidden", "chain~hidden", "unjson~hidden"} {
+		if k == w {
+			return i
+		}
+	}
+	return -1
+}
+
 func replayTerm(in input) map[string]any {
 	o := in.Beh
 	fail0 := func(key, what string) map[string]any {
@@ -445,7 +456,11 @@ func replayTerm(in input) map[string]any {
 			}
 		}
 		if !accepted(acc, got) {
-			// which known deviation explains the output with the fewest concat operators going on after a failure?
+			// which deviation explains the output?  Several may (a nested visible failure that was ALSO passed, or only a
+			// hidden one that was passed, can produce the same sequence): take the most excusable explanation - an
+			// output that the recorded design limits (failures hidden behind channels / close hooks) explain on their
+			// own is not evidence of anything else - and among equally excusable ones the one with the fewest
+			// concat operators going on after a failure.
 			var best *alt
 			for _, a := range o.Alts {
 				a := a
@@ -453,7 +468,8 @@ func replayTerm(in input) map[string]any {
 				if mode == "count" {
 					aseq = []int{len(a.Seq)}
 				}
-				if eq(aseq, got) && len(a.Div) > 0 && (best == nil || len(a.Div) < len(best.Div)) {
+				if eq(aseq, got) && len(a.Div) > 0 && (best == nil || excuse(a.Div) > excuse(best.Div) ||
+					(excuse(a.Div) == excuse(best.Div) && len(a.Div) < len(best.Div))) {
 					best = &a
 				}
 			}
